@@ -50,6 +50,13 @@ let gen ~(tier : string) ~(seed : int) ~(emit : Sexp.t -> unit) : unit =
   List.iter (fun p -> List.iter (fun c -> emit (case_rt (to_string (wrap (p c))))) (children "1")) (parents "2");
   List.iter (fun p1 -> List.iter (fun p2 -> List.iter (fun c ->
       if Rng.chance r 1 (if tier = "quick" then 4 else 1) then emit (case_rt (to_string (wrap (p1 (p2 c)))))) (children "1")) (parents "2")) (parents "3");
+  (* a function type's bound variable occurring exactly once, at every position of every former of the codomain (one and
+     two levels): whether the binder is printed is decided by a free-variable test that must look everywhere *)
+  List.iter (fun im ->
+      List.iter (fun p -> emit (case_rt (to_string (wrap (SPi ("b", im, SType, p (SVar "b"))))))) (parents "2");
+      List.iter (fun p1 -> List.iter (fun p2 ->
+          emit (case_rt (to_string (wrap (SPi ("b", im, SType, p1 (p2 (SVar "b")))))))) (parents "2")) (parents "3"))
+    [ false; true ];
   (* generated programs with re-used names *)
   for i = 1 to (if tier = "quick" then 6000 else 60000) do
     let m = if i mod 2 = 0 then full_annot else mixed in
